@@ -327,7 +327,8 @@ class Env:
             i = op["i"]
             cls = type(self.insts[i])
             self.insts[i] = None
-            gc.collect()
+            if self.refs[i]() is not None:
+                gc.collect()                 # only reference cycles need the collector
             collected = self.refs[i]() is None
             # new instances (one of them very likely at the address of the dead one) have bound signals of
             # their own: none of the channels seen so far, and their events name them as source
@@ -348,7 +349,6 @@ class Env:
                         if any(sig is old for old in self.chans):
                             stale = True
                 del fresh
-                gc.collect()
             return {"k": "Dropped", "collected": collected, "stale": stale}
         raise AssertionError(k)
 
